@@ -20,6 +20,8 @@ type MyRec struct {
 	in, out  []byte
 	timedOut bool
 	noRecord bool
+	raw      net.Conn
+	poisoned bool // the client library panicked while using the connection: its locks may be held, only the socket is closed
 }
 
 // Mark is a position in both recorded streams.
@@ -98,7 +100,11 @@ func registerMyDial() {
 			if err != nil {
 				return nil, err
 			}
-			return &myRecConn{Conn: conn, rec: v.(*MyRec)}, nil
+			rec := v.(*MyRec)
+			rec.mu.Lock()
+			rec.raw = conn
+			rec.mu.Unlock()
+			return &myRecConn{Conn: conn, rec: rec}, nil
 		})
 	})
 }
@@ -146,9 +152,43 @@ func DialMy(port int, maxPacket int) (*MyClient, error) {
 
 // Close ends the session (COM_QUIT).
 func (c *MyClient) Close() {
+	c.MyRec.mu.Lock()
+	poisoned, raw := c.MyRec.poisoned, c.MyRec.raw
+	c.MyRec.mu.Unlock()
+	myRecs.Delete(c.addr)
+	if poisoned {
+		if raw != nil {
+			raw.Close()
+		}
+		return
+	}
 	c.conn.Close()
 	c.db.Close()
-	myRecs.Delete(c.addr)
+}
+
+var errPoisoned = fmt.Errorf("proxyrig: connection abandoned after a client driver panic")
+
+// dead reports (and records in res) that the connection was abandoned after a driver panic.
+func (c *MyClient) dead(res *MyResult) bool {
+	c.MyRec.mu.Lock()
+	p := c.MyRec.poisoned
+	c.MyRec.mu.Unlock()
+	if p {
+		res.Err, res.Broken, res.DriverPanic = errPoisoned, true, true
+	}
+	return p
+}
+
+// guard turns a panic of the client library (it indexes into malformed packets) into a broken-connection result.
+func (c *MyClient) guard(res *MyResult) {
+	if p := recover(); p != nil {
+		c.MyRec.mu.Lock()
+		c.MyRec.poisoned = true
+		c.MyRec.mu.Unlock()
+		res.Err = fmt.Errorf("client driver panicked on what it received: %v", p)
+		res.Broken = true
+		res.DriverPanic = true
+	}
 }
 
 // MyCol describes a result column as the application sees it.
@@ -184,6 +224,8 @@ type MyResult struct {
 	Rows     [][]MyVal
 	Broken   bool // the connection is no longer usable
 	Timeout  bool
+	// DriverPanic: go-sql-driver panicked while decoding what it received (malformed packet)
+	DriverPanic bool
 }
 
 func (c *MyClient) classify(res *MyResult, err error) {
@@ -245,8 +287,12 @@ func readRows(rows *sql.Rows, res *MyResult) error {
 
 // Query runs a statement that returns rows: without args as COM_QUERY (text protocol), with args as
 // COM_STMT_PREPARE + COM_STMT_EXECUTE + COM_STMT_CLOSE (binary protocol).
-func (c *MyClient) Query(q string, args ...interface{}) *MyResult {
-	res := &MyResult{}
+func (c *MyClient) Query(q string, args ...interface{}) (res *MyResult) {
+	res = &MyResult{}
+	if c.dead(res) {
+		return
+	}
+	defer c.guard(res)
 	rows, err := c.conn.QueryContext(context.Background(), q, args...)
 	if err != nil {
 		c.classify(res, err)
@@ -259,8 +305,12 @@ func (c *MyClient) Query(q string, args ...interface{}) *MyResult {
 }
 
 // Exec runs a statement that returns no rows (same protocol choice as Query).
-func (c *MyClient) Exec(q string, args ...interface{}) *MyResult {
-	res := &MyResult{}
+func (c *MyClient) Exec(q string, args ...interface{}) (res *MyResult) {
+	res = &MyResult{}
+	if c.dead(res) {
+		return
+	}
+	defer c.guard(res)
 	r, err := c.conn.ExecContext(context.Background(), q, args...)
 	if err != nil {
 		c.classify(res, err)
@@ -277,8 +327,12 @@ type MyStmt struct {
 }
 
 // Prepare sends COM_STMT_PREPARE.
-func (c *MyClient) Prepare(q string) (*MyStmt, *MyResult) {
-	res := &MyResult{}
+func (c *MyClient) Prepare(q string) (ps *MyStmt, res *MyResult) {
+	res = &MyResult{}
+	if c.dead(res) {
+		return
+	}
+	defer c.guard(res)
 	st, err := c.conn.PrepareContext(context.Background(), q)
 	if err != nil {
 		c.classify(res, err)
@@ -288,8 +342,12 @@ func (c *MyClient) Prepare(q string) (*MyStmt, *MyResult) {
 }
 
 // Query executes the prepared statement (COM_STMT_EXECUTE, binary rows).
-func (s *MyStmt) Query(args ...interface{}) *MyResult {
-	res := &MyResult{}
+func (s *MyStmt) Query(args ...interface{}) (res *MyResult) {
+	res = &MyResult{}
+	if s.c.dead(res) {
+		return
+	}
+	defer s.c.guard(res)
 	rows, err := s.st.QueryContext(context.Background(), args...)
 	if err != nil {
 		s.c.classify(res, err)
@@ -302,8 +360,12 @@ func (s *MyStmt) Query(args ...interface{}) *MyResult {
 }
 
 // Exec executes the prepared statement, discarding rows.
-func (s *MyStmt) Exec(args ...interface{}) *MyResult {
-	res := &MyResult{}
+func (s *MyStmt) Exec(args ...interface{}) (res *MyResult) {
+	res = &MyResult{}
+	if s.c.dead(res) {
+		return
+	}
+	defer s.c.guard(res)
 	r, err := s.st.ExecContext(context.Background(), args...)
 	if err != nil {
 		s.c.classify(res, err)
@@ -314,7 +376,24 @@ func (s *MyStmt) Exec(args ...interface{}) *MyResult {
 }
 
 // Close sends COM_STMT_CLOSE.
-func (s *MyStmt) Close() { s.st.Close() }
+func (s *MyStmt) Close() {
+	s.c.MyRec.mu.Lock()
+	poisoned := s.c.MyRec.poisoned
+	s.c.MyRec.mu.Unlock()
+	if poisoned {
+		return
+	}
+	s.st.Close()
+}
 
 // Ping sends COM_PING.
-func (c *MyClient) Ping() error { return c.conn.PingContext(context.Background()) }
+func (c *MyClient) Ping() (err error) {
+	res := &MyResult{}
+	defer func() {
+		if res.Err != nil {
+			err = res.Err
+		}
+	}()
+	defer c.guard(res)
+	return c.conn.PingContext(context.Background())
+}
